@@ -18,10 +18,14 @@ REAL servers run with the library default `async_handlers=True`:
   schedule (handler-atomic interleavings: a deterministic subset of what threads can do).
 
 At chosen points and at the end of the history the event loop (the deferred queue) is drained until
-nothing is runnable and the canonical state dump of `ServerDriver.dump()` is taken.  Only these
-dumps are observed; they are judged by the Coq checker `c11q_eval` (Check/C11Check.v)."""
+nothing is runnable and the canonical state dump of `ServerDriver.dump()` is taken, together with the
+number of FINISHED handler tasks of departed clients that survive `gc.collect()` (asyncio; weak references
+registered by wrapping `start_background_task` on the instance, so the count does not depend on where a
+reference is kept).  Only these dumps and counts are observed; they are judged by the Coq checker `c11q_eval` (Check/C11Check.v)."""
 import asyncio
+import gc
 import inspect
+import weakref
 
 from drivers import srv
 from drivers.srv import aw, _copy
@@ -43,8 +47,22 @@ class OverlapDriver(srv.ServerDriver):
         self.deferred = []
         self.running = 0        # scripted handler bodies in flight (suspended or queued)
         self.overlaps = 0       # operations that began while a handler body was in flight
+        self.spawned = []       # asyncio: (weak reference to the handler task, transport it works for)
         if mode == 'sync':
             self.sio.start_background_task = self._defer
+        else:
+            real = self.sio.start_background_task
+
+            def spawn(target, *args, **kwargs):
+                task = real(target, *args, **kwargs)
+                # _handle_event passes (server, sid, eio_sid, data, namespace, id)
+                eio = args[2] if len(args) > 2 and isinstance(args[2], str) else None
+                try:
+                    self.spawned.append((weakref.ref(task), eio))
+                except TypeError:
+                    pass
+                return task
+            self.sio.start_background_task = spawn
 
     def _body(self, hid, kind):
         inner = super()._body(hid, kind)
@@ -57,6 +75,26 @@ class OverlapDriver(srv.ServerDriver):
             finally:
                 drv.running -= 1
         return body
+
+    def retained_tasks(self):
+        """Finished handler tasks of departed clients that survive a garbage collection, wherever the reference
+        is kept (the task keeps its exception, traceback and frames, hence the sid and the payload)."""
+        def alive():
+            live = set(e for e, s in self.sio.eio.sockets.items() if not s.closed)
+            n = 0
+            for ref, eio in self.spawned:
+                t = ref()
+                if t is not None and t.done() and eio not in live:
+                    n += 1
+            return n
+        if alive():
+            gc.collect()
+        return alive()
+
+    def dump(self):
+        d = super().dump()
+        d['retained_tasks'] = self.retained_tasks()
+        return d
 
     # ---- threaded server: deferred handler runs ----
     def _defer(self, target, *args, **kwargs):
@@ -106,10 +144,17 @@ class OverlapDriver(srv.ServerDriver):
 
 
 async def quiesce(limit=200000):
+    """Nothing runnable: no unfinished task on three consecutive turns (the done-callbacks of a task that
+    has just finished are run one turn later)."""
     me = asyncio.current_task()
+    idle = 0
     for _ in range(limit):
         if not any(t is not me and not t.done() for t in asyncio.all_tasks()):
-            return
+            idle += 1
+            if idle >= 3:
+                return
+        else:
+            idle = 0
         await asyncio.sleep(0)
     raise RuntimeError('event loop did not become quiescent')
 
@@ -183,4 +228,4 @@ def _run_sync(cfg, ops, sched):
 
 def qcase_term(dumps):
     from vt.coqio import clist
-    return '(mkQ %s)' % clist([srv.c_dump(x) for x in dumps])
+    return '(mkQ %s %s)' % (clist([srv.c_dump(x) for x in dumps]), clist(['%d%%nat' % x.get('retained_tasks', 0) for x in dumps]))
